@@ -295,13 +295,20 @@ def cond_fields(c):
     return []
 
 
+DELIMS = list("-.:/@,;=#%[]\"'\\ \t") + ["\u00a0"]
+
+
 def string_neighbours(v, rng):
-    """near misses of a valid string"""
+    """near misses of a valid string: cut, extended, case changed, blanks of every kind around and inside, every delimiter of the formats inserted
+    (single and doubled), non-ASCII digits, line feeds, very long, look-alikes of other types"""
     out = []
     if isinstance(v, str) and v:
         i = rng.randrange(len(v))
-        out += [v[:-1], v[1:], v + "x", "x" + v, v + " ", " " + v, v.upper() if v.upper() != v else v.lower(), v[:i] + v[i + 1:], v[:i] + "!" + v[i:],
-                v + "\n", v + "\n\n", "\n" + v, v + "-", v + ".", v[:i] + "-" + v[i:], v * 2, "/" + v, v.replace("1", "١") if "1" in v else v + "١"]
+        d = rng.choice(DELIMS)
+        out += [v[:-1], v[1:], v + "x", "x" + v, v + " ", " " + v, v + "\t", "\t" + v, v + "\u00a0", "\u00a0" + v, v[:i] + " " + v[i:],
+                v.upper() if v.upper() != v else v.lower(), v.swapcase(), v[:i] + v[i + 1:], v[:i] + "!" + v[i:],
+                v + "\n", v + "\n\n", "\n" + v, v + "-", v + ".", v[:i] + d + v[i:], v[:i] + d + d + v[i:], v + d, d + v, v * 2, "/" + v, "//" + v, "./" + v,
+                v.replace("1", "\u0661") if "1" in v else v + "\u0661", v + "\uff17", v + "\U0001d518", v + "x" * 300, "None", "null", "0", "False", "1.0"]
     return out
 
 
@@ -314,7 +321,10 @@ def candidates(rule, snap, T, rng):
         k = rule[0]
         if k == "value":
             tab = T[rule[2]]
-            pool += ["floppy", tab[0].upper(), tab[-1] + " ", tab[0][:-1], tab[0] + tab[-1]]
+            e, e2 = rng.choice(tab), rng.choice(tab)
+            # near misses of EVERY table entry over time, always including the last one: case, blank, proper prefix, extension, two entries glued
+            pool += ["floppy", e.upper(), e.capitalize(), e + " ", " " + e, e[:-1], e + "x", e + "-" + e2, e + e2, tab[-1][:-1], tab[-1] + "x", tab[-1].upper(),
+                     e.replace("-", "_"), e.replace("-", "")]
         if k == "re" or (k == "guard" and rule[2][0] == "re"):
             pool += ["2015", "1", "1.x", "1.2.3", "a" * 32, "A" * 32, "0" * 31, "0" * 33, "20200101x", "x-y", "1.", ".1", "1..2", "1.2\n"]
         if f in ("additional_variants",):
